@@ -57,10 +57,11 @@ func Run(c *core.Ctx) {
 	sites(c)
 	readers(c)
 	lua(c)
-	c.Expect("R1.table", 25)
-	c.Expect("R2.matcher", 9)
-	c.Expect("R3.matrix", 12)
+	c.Expect("R1.table", 30)
+	c.Expect("R2.matcher", 7)
+	c.Expect("R3.matrix", 16)
 	c.Expect("R4.polarity", 12)
+	c.Expect("R6.lua", 4)
 }
 
 // ---------------------------------------------------------------------------
@@ -74,7 +75,7 @@ type predicate struct {
 	params []types.Object
 	// what the classifier learnt on the way (R2)
 	helpers map[string]*ast.CallExpr // list field -> call of the matching helper
-	r2      []func()
+	r2      map[string]func()
 }
 
 func newPredicate(c *core.Ctx, name string) *predicate {
@@ -82,7 +83,7 @@ func newPredicate(c *core.Ctx, name string) *predicate {
 	if fn == nil {
 		return nil
 	}
-	p := &predicate{c: c, fn: fn, info: fn.Pkg.TypesInfo, x: tt.New(cfgq.Of(c.Program, fn)), helpers: map[string]*ast.CallExpr{}}
+	p := &predicate{c: c, fn: fn, info: fn.Pkg.TypesInfo, x: tt.New(cfgq.Of(c.Program, fn)), helpers: map[string]*ast.CallExpr{}, r2: map[string]func(){}}
 	for _, f := range fn.Decl.Type.Params.List {
 		for _, n := range f.Names {
 			p.params = append(p.params, p.info.Defs[n])
@@ -171,15 +172,15 @@ func (p *predicate) classify(l tt.Lit) (string, bool, bool) {
 		case "HasPrefix":
 			ck := p.checkpointKey()
 			if s, ok := core.StringConst(info, b); ok && s == ck && p.isParam(a, 0) {
-				p.r2 = append(p.r2, func() {
+				p.r2["ckpt"] = func() {
 					p.c.Okf("R2.matcher", p.fn.Decl.Name.Name+"/checkpoint-prefix", e.Pos(), "checkpoint keys are recognised by strings.HasPrefix(key, %q)", ck)
-				})
+				}
 				return "ckpt", true, true
 			}
 			if s, ok := core.StringConst(info, a); ok && s == ck && p.isParam(b, 0) {
-				p.r2 = append(p.r2, func() {
+				p.r2["ckpt"] = func() {
 					p.c.Failf("R2.matcher", p.fn.Decl.Name.Name+"/checkpoint-prefix", e.Pos(), "HasPrefix(%q, key) tests whether the key is a prefix of the checkpoint name: the sharded checkpoint key %q-<slot> is not recognised and is copied to the target", ck, ck)
-				})
+				}
 				return "ckpt", true, true
 			}
 		}
